@@ -130,15 +130,17 @@ PROPS['C02'] = {
                     'L-stream (drive: a loop over advance yields model_run, any length) and L-cancel (lemma_cancel + the same_future bisimulation, one lemma per state) are mechanised in the same unit; L-cancel excludes the Utf8 pseudo-state, where CAN/SUB are bytes fed to the caller-chosen accumulator (for Utf8Parser: S5 finishes the character on any non-continuation byte)'],
     'explanation': 'Verus proves that one call of the real Parser::advance refines one step of the S2 model (and, by the verified driver loop, that any stream yields the model run; after CAN/SUB the future equals that of an empty parser) (Williams parser + documented limits) for every well-formed parser state and every byte: same events in the same order with the same arguments, representation invariants of Params/OSC bookkeeping preserved; the 16x256 table equals S1 and the unsafe leaves are discharged by Kani.',
 }
+SGR_FRAME = ['sgr_extract_frame_ground', 'sgr_extract_frame_esc', 'sgr_extract_frame_csi_param', 'sgr_extract_frame_csi_colon', 'sgr_extract_frame_osc', 'sgr_extract_frame_utf8']
 PROPS['C03'] = {
     'level': 'proof',
-    'functions': ['anstream::adapter::strip::{next_bytes,next_str}', 'anstream::strip::{write,write_all}'],
+    'functions': ['anstream::adapter::strip::{next_bytes,next_str}', 'anstream::strip::{write,write_all}', 'anstream::adapter::wincon::WinconBytes::extract_next (frame)'],
     'quick': {'verus': ['strip_scan', 'strip_fold'], 'kani': [
-        {'crate': 'anstream', 'harnesses': STRIP_LEAVES, 'timeout': 900}]},
+        {'crate': 'anstream', 'harnesses': STRIP_LEAVES + SGR_FRAME, 'timeout': 900, 'jobs': 6}]},
     'thorough': {'verus': ['strip_scan', 'strip_fold'], 'kani': [
-        {'crate': 'anstream', 'harnesses': STRIP_LEAVES + ['strip_next_bytes_onecall_n3', 'strip_next_str_onecall_n3'], 'timeout': 3000}]},
-    'bounded': {'strip_next_bytes_onecall_n3': 'twin, inputs <= 3 bytes', 'strip_next_str_onecall_n3': 'twin, inputs <= 3 bytes'},
-    'assumptions': ['styled-run extractor (WinconBytes::extract_next) chunking is covered through the parser one-step refinement (C02) and C07; no separate obligation here',
+        {'crate': 'anstream', 'harnesses': STRIP_LEAVES + SGR_FRAME + ['strip_next_bytes_onecall_n3', 'strip_next_str_onecall_n3'], 'timeout': 3000, 'jobs': 6}]},
+    'bounded': {'strip_next_bytes_onecall_n3': 'twin, inputs <= 3 bytes', 'strip_next_str_onecall_n3': 'twin, inputs <= 3 bytes',
+                **{h: 'carried parser state fixed by a concrete prefix (see harness name), style symbolic, chunk of 0-2 symbolic bytes' for h in SGR_FRAME}},
+    'assumptions': ['styled-run extractor: the parser consumes one byte per step from a carried state (one-step refinement, C02), next_bytes feeds every byte exactly once and carries style and pending text (C07 run-emission harnesses), and WinconBytes::extract_next leaves the carried parser state and style untouched at a chunk boundary (frame harnesses here: six carried states reached by concrete prefixes — bounded sample); no whole-input fold lemma is mechanised for the extractor as it is for the strip adapters',
                     'std Iterator::position semantics (rule E8a)'],
     'explanation': 'The one-call scan contracts are stated for an arbitrary carried state and pin the carried state after the call to the model state at the cut; the spec-level fold lemmas (unit strip_fold) then give visible(a ++ b) == visible(a) ++ visible-from-carried-state(b) for every cut, including cuts inside escape sequences and (byte API) inside characters.',
 }
@@ -183,7 +185,6 @@ PROPS['C06'] = {
 
 SGR_SHAPES_Q = ['sgr_shape_one', 'sgr_shape_2_semi', 'sgr_shape_2_colon', 'sgr_shape_3_semis', 'sgr_shape_3_colons', 'sgr_shape_3_colon_semi',
                 'sgr_shape_4_semi', 'sgr_shape_5_semi', 'sgr_shape_10_semi', 'sgr_print_execute', 'sgr_to_ansi_color']
-SGR_FRAME = ['sgr_extract_frame_ground', 'sgr_extract_frame_esc', 'sgr_extract_frame_csi_param', 'sgr_extract_frame_csi_colon', 'sgr_extract_frame_osc', 'sgr_extract_frame_utf8']
 SGR_EMISSION = ['sgr_run_emission_2_plain', 'sgr_run_emission_2_bold', 'sgr_run_emission_3_plain', 'sgr_run_emission_3_bold']
 SGR_SHAPES_T = SGR_SHAPES_Q + ['sgr_shape_3_semi_colon', 'sgr_shape_4_colon3_semi', 'sgr_shape_5_colon', 'sgr_shape_6_semi']
 PROPS['C07'] = {
